@@ -3,7 +3,7 @@
 import os, sys, json
 sys.path[:0] = ['/verif', '/repo/src']
 from vf.replay import replay
-ARGS = json.loads('{"k2": 0, "k3": 3}')
-r = replay('harness.c02', "menu3[S1,'-fo']", ARGS, 'quick')
+ARGS = json.loads('{"a": 3, "b": 1, "c1": 2, "c2": 3, "lenient": false}')
+r = replay('harness.c05', "three_parses[S1,S1,'-o']", ARGS, 'quick')
 print('REPRODUCED: ' + r if r else 'NOT-REPRODUCED')
 sys.exit(1 if r else 0)
